@@ -249,7 +249,9 @@ def g_sint(rng, signs=True):
 
 def g_float(rng):
     r = rng.random()
-    sign = "-" if rng.random() < 0.25 else ""
+    sign = "-" if rng.random() < 0.25 else ("+" if rng.random() < 0.05 else "")
+    if rng.random() < 0.15:                  # no leading zero: valid in the VCF / C float grammar
+        return sign + "." + "".join(rng.choice("0123456789") for _ in range(rng.choice([1, 1, 2, 3])))
     if r < 0.2:
         return sign + g_uint(rng, rng.choice([1, 2, 3, 5]), lead0=False)
     if r < 0.75:
@@ -399,7 +401,8 @@ def g_vcf(rng, big, flavour):
         head.append('##FORMAT=<ID=GT,Number=1,Type=String,Description="Genotype">')
     cols = "#CHROM POS ID REF ALT QUAL FILTER INFO".split() + (["FORMAT"] + [f"s{i}" for i in range(ns)] if ns else [])
     head.append("\t".join(cols))
-    extra_fmt = ns and rng.random() < 0.4 and flavour != "PhasedVCFMatrixBuffer"
+    extra_fmt = ns and rng.random() < 0.5 and flavour != "PhasedVCFMatrixBuffer"
+    fmt_keys = rng.choice([["DP"], ["DP", "GQ"], ["DP", "GQ", "PL"]]) if extra_fmt else []
     lines = []
     dotmode = rng.choice(["none", "none", "some"])
     for _ in range(n):
@@ -418,13 +421,15 @@ def g_vcf(rng, big, flavour):
                 def one():
                     if dotmode == "some" and t != "String" and rng.random() < 0.3:
                         return "."
+                    if t == "Float" and rng.random() < 0.35:
+                        return rng.choice([".5", "-.5", "0.5", ".125", "+.25", "5", ".0"])
                     return g_uint(rng, rng.choice([1, 2, 3, 9])) if t == "Integer" else (g_float(rng) if t == "Float" else g_ident(rng))
                 items.append(k + "=" + ",".join(one() for _ in range(cnt)))
             f.append(";".join(items) if items else ".")
         else:
             f.append(rng.choice([".", "DP=" + g_uint(rng, 2), "DP=3;AF=0.5;DB"]))
         if ns:
-            f.append("GT:DP" if extra_fmt else "GT")
+            f.append(":".join(["GT"] + fmt_keys))
             for _ in range(ns):
                 if flavour == "PhasedVCFMatrixBuffer":
                     gt = rng.choice("01") + "|" + rng.choice("01")
@@ -434,7 +439,9 @@ def g_vcf(rng, big, flavour):
                     gt = rng.choice(["0", "1", ".", "0/1/2", "10|2"])      # haploid / polyploid / two-digit allele calls
                 else:
                     gt = rng.choice("012.") + rng.choice("|/") + rng.choice("012.")
-                f.append(gt + (":" + g_uint(rng, rng.choice([1, 2, 3])) if extra_fmt else ""))
+                # trailing sub-fields may be dropped per sample (VCF 1.4.2): a bare genotype next to a full one
+                keep = rng.choice([0, len(fmt_keys), len(fmt_keys), rng.randrange(0, len(fmt_keys) + 1)]) if fmt_keys else 0
+                f.append(":".join([gt] + [g_uint(rng, rng.choice([1, 2, 3])) if k != "PL" else "0,10,100" for k in fmt_keys[:keep]]))
         lines.append("\t".join(f))
     return head + lines
 
@@ -500,7 +507,7 @@ def cases(tier, rng):
         for _ in range(per * 4 if fmt == "vcf" else per):        # six buffer flavours share the VCF budget
             crlf = rng.random() < 0.2
             if fmt == "vcf":
-                fl = rng.choice(VCF_FLAVOURS)
+                fl = rng.choice(VCF_FLAVOURS + ["VCFBuffer2", "VCFBuffer2", "VCFBuffer"])
                 yield _case(fmt, g_vcf(rng, big, fl), crlf, flavour=fl)
             elif fmt == "sam":
                 yield _case(fmt, g_sam(rng, big), crlf)
@@ -604,7 +611,7 @@ def impl(c):
 # ------------------------------------------------------------------ reference parser (independent of bionumpy)
 _INT = re.compile(r"^[0-9]+$")
 _SINT = re.compile(r"^[+-]?[0-9]+$")
-_FLOAT = re.compile(r"^-?[0-9]+(\.[0-9]+)?(e[+-]?[0-9]+)?$")
+_FLOAT = re.compile(r"^[-+]?[0-9]*\.?[0-9]+(e[+-]?[0-9]+)?$")
 
 
 class _Bad(Exception):
